@@ -272,7 +272,12 @@ impl TypeChecker {
                     for ((_, param_name, _), arg) in type_parameters.iter().zip(type_args.iter()) {
                         let arg_type = self.type_from_annotation(arg)?;
                         concrete_type_args.push(arg_type.clone());
-                        substitution.append(TypeVariable::new(param_name), arg_type);
+                        // All type parameters are replaced simultaneously: an argument may
+                        // mention a type parameter of the same name (`Pair<B, A>`), which must
+                        // not be substituted again.
+                        substitution
+                            .0
+                            .push((TypeVariable::new(param_name), arg_type));
                     }
 
                     // Create instantiated struct with substituted field types
